@@ -13,6 +13,8 @@ import (
 
 func init() {
 	register(&PropertyCheck{ID: "C12", Level: "other", Run: checkC12, Canaries: []Canary{
+		{Name: "two-parameter-mutator-derives-a-flag-from-the-wrong-argument", Rule: "R12.7", Where: "SetCredentials", Edits: []Edit{{"connect.go", "func (p *Connect) Password() []byte { return p.password }\n", "func (p *Connect) Password() []byte { return p.password }\n\n// SetCredentials sets the user name and the password in one call,\n// both are optional.\nfunc (p *Connect) SetCredentials(username string, password []byte) {\n\tp.username = wstring(username)\n\tif len(username) == 0 {\n\t\tp.username = nil\n\t}\n\tp.password = password\n\tp.flags.toggle(UsernameFlag, len(p.username) > 0)\n\tp.flags.toggle(PasswordFlag, len(p.username) > 0)\n}\n"}}},
+		{Name: "setter-clears-another-field-on-a-mixed-condition", Rule: "R12.2", Where: "SetQoS", Edits: []Edit{{"publish.go", "func (p *Publish) SetQoS(v uint8) {", "func (p *Publish) SetQoS(v uint8) {\n\tif q := p.QoS(); (q == 1 || q == 2) && v == 0 {\n\t\t// at most once, the packet identifier is no longer used\n\t\tp.packetID = 0\n\t}"}}},
 		{Name: "set-password-wipes-the-previous-slice-in-place", Rule: "R12.4", Where: "SetPassword", Edits: []Edit{{"connect.go", "func (p *Connect) SetPassword(v []byte) {", "func (p *Connect) SetPassword(v []byte) {\n\t// do not leave the previous secret behind in memory\n\tfor i := range p.password {\n\t\tp.password[i] = 0\n\t}"}}},
 		{Name: "adder-drops-duplicates", Rule: "R12.5", Where: "AddSubscriptionID", Edits: []Edit{{"publish.go", "func (p *Publish) AddSubscriptionID(v uint32) {\n\tp.subscriptionIDs = append(p.subscriptionIDs, v)\n}\n\nfunc (p *Publish) SubscriptionIDs() []uint32 {\n\treturn p.subscriptionIDs\n}\n\n// The value of the Content Type is defined by the sending and\n// receiving application, e.g. it may be a mime type like\n// application/json.\nfunc (p *Publish) SetContentType(v string) { p.contentType = wstring(v) }\nfunc (p *Publish) ContentType() string     { return string(p.contentType) }\n\nfunc (p *Publish) SetPayload(v []byte) { p.payload = rawdata(v) }\nfunc (p *Publish) Payload() []byte     { return []byte(p.payload) }\n\n// end settings\n// ----------------------------------------\n\nfunc (p *Publish) WriteTo(w io.Writer) (int64, error) {\n\tb := make([]byte, p.fill(_LEN, 0))\n\tp.fill(b, 0)\n\tn, err := w.Write(b)\n\treturn int64(n), err\n}\n\nfunc (p *Publish) width() int {\n\treturn p.fill(_LEN, 0)\n}\n\nfunc (p *Publish) fill(b []byte, i int) int {\n\tremainingLen := vbint(p.variableHeader(_LEN, 0))\n\n\tif len(p.payload) > 0 {\n\t\tremainingLen += vbint(p.payload.fill(_LEN, 0))\n\t}\n\n\ti += p.fixed.fill(b, i)      // firstByte header\n\ti += remainingLen.fill(b, i) // remaining length\n\ti += p.variableHeader(b, i)  // variable header\n\tif len(p.payload) > 0 {\n\t\ti += p.payload.fill(b, i) // payload\n\t}\n\n\treturn i\n}\nfunc (p *Publish) variableHeader(b []byte, i int) int {\n\tn := i\n\n\ti += p.topicName.fill(b, i)\n\tif v := p.QoS(); v == 1 || v == 2 {\n\t\ti += p.packetID.fill(b, i)\n\t}\n\ti += vbint(p.properties(_LEN, 0)).fill(b, i) // Properties len\n\ti += p.properties(b, i)                      // Properties\n\n\treturn i - n\n}\n\nfunc (p *Publish) properties(b []byte, i int) int {\n\tn := i\n\ti += p.payloadFormat.fillProp(b, i, PayloadFormatIndicator)\n\ti += p.messageExpiryInterval.fillProp(b, i, MessageExpiryInterval)\n\ti += p.topicAlias.fillProp(b, i, TopicAlias)\n\ti += p.responseTopic.fillProp(b, i, ResponseTopic)\n\ti += p.correlationData.fillProp(b, i, CorrelationData)\n\ti += p.contentType.fillProp(b, i, ContentType)\n\n\ti += p.UserProperties.properties(b, i)\n\tfor j, _ := range p.subscriptionIDs {\n\t\ti += vbint(p.subscriptionIDs[j]).fillProp(b, i, SubscriptionID)\n\t}\n\treturn i - n\n}\n\nfunc (p *Publish) UnmarshalBinary(data []byte) error {\n\tbuf := &buffer{\n\t\tdata:              data,\n\t\taddSubscriptionID: p.AddSubscriptionID,", "// AddSubscriptionID adds the identifier of a matching subscription.\n// An identifier that is already present is not added again.\nfunc (p *Publish) AddSubscriptionID(v uint32) {\n\tfor _, id := range p.subscriptionIDs {\n\t\tif id == v {\n\t\t\treturn\n\t\t}\n\t}\n\tp.appendSubscriptionID(v)\n}\n\n// appendSubscriptionID is used when decoding, what is on the wire is\n// kept as is.\nfunc (p *Publish) appendSubscriptionID(v uint32) {\n\tp.subscriptionIDs = append(p.subscriptionIDs, v)\n}\n\nfunc (p *Publish) SubscriptionIDs() []uint32 {\n\treturn p.subscriptionIDs\n}\n\n// The value of the Content Type is defined by the sending and\n// receiving application, e.g. it may be a mime type like\n// application/json.\nfunc (p *Publish) SetContentType(v string) { p.contentType = wstring(v) }\nfunc (p *Publish) ContentType() string     { return string(p.contentType) }\n\nfunc (p *Publish) SetPayload(v []byte) { p.payload = rawdata(v) }\nfunc (p *Publish) Payload() []byte     { return []byte(p.payload) }\n\n// end settings\n// ----------------------------------------\n\nfunc (p *Publish) WriteTo(w io.Writer) (int64, error) {\n\tb := make([]byte, p.fill(_LEN, 0))\n\tp.fill(b, 0)\n\tn, err := w.Write(b)\n\treturn int64(n), err\n}\n\nfunc (p *Publish) width() int {\n\treturn p.fill(_LEN, 0)\n}\n\nfunc (p *Publish) fill(b []byte, i int) int {\n\tremainingLen := vbint(p.variableHeader(_LEN, 0))\n\n\tif len(p.payload) > 0 {\n\t\tremainingLen += vbint(p.payload.fill(_LEN, 0))\n\t}\n\n\ti += p.fixed.fill(b, i)      // firstByte header\n\ti += remainingLen.fill(b, i) // remaining length\n\ti += p.variableHeader(b, i)  // variable header\n\tif len(p.payload) > 0 {\n\t\ti += p.payload.fill(b, i) // payload\n\t}\n\n\treturn i\n}\nfunc (p *Publish) variableHeader(b []byte, i int) int {\n\tn := i\n\n\ti += p.topicName.fill(b, i)\n\tif v := p.QoS(); v == 1 || v == 2 {\n\t\ti += p.packetID.fill(b, i)\n\t}\n\ti += vbint(p.properties(_LEN, 0)).fill(b, i) // Properties len\n\ti += p.properties(b, i)                      // Properties\n\n\treturn i - n\n}\n\nfunc (p *Publish) properties(b []byte, i int) int {\n\tn := i\n\ti += p.payloadFormat.fillProp(b, i, PayloadFormatIndicator)\n\ti += p.messageExpiryInterval.fillProp(b, i, MessageExpiryInterval)\n\ti += p.topicAlias.fillProp(b, i, TopicAlias)\n\ti += p.responseTopic.fillProp(b, i, ResponseTopic)\n\ti += p.correlationData.fillProp(b, i, CorrelationData)\n\ti += p.contentType.fillProp(b, i, ContentType)\n\n\ti += p.UserProperties.properties(b, i)\n\tfor j, _ := range p.subscriptionIDs {\n\t\ti += vbint(p.subscriptionIDs[j]).fillProp(b, i, SubscriptionID)\n\t}\n\treturn i - n\n}\n\nfunc (p *Publish) UnmarshalBinary(data []byte) error {\n\tbuf := &buffer{\n\t\tdata:              data,\n\t\taddSubscriptionID: p.appendSubscriptionID,"}}},
 		{Name: "adder-ignores-the-empty-string", Rule: "R12.5", Where: "AddFilter", Edits: []Edit{{"unsubscribe.go", "func (p *Unsubscribe) AddFilter(filter string) {", "// AddFilter adds a topic filter to unsubscribe from. Topic filters\n// must be at least one character long [MQTT-4.7.3-1], empty ones are\n// ignored.\nfunc (p *Unsubscribe) AddFilter(filter string) {\n\tif len(filter) == 0 {\n\t\treturn\n\t}"}}},
@@ -165,6 +167,7 @@ func checkC12(p *Prog, c *Check) {
 			}
 		}
 	}
+	checkMultiParamMutators(p, c)
 	c.Rule("R12.6", "the encoded frame reflects the final state only: for every packet type the encoder's event sequence (wire kinds, identifiers, widths, values) after every setter has been called twice — another value first, then the final one; for CONNECT also a will message replaced by another one and by a minimal one — equals the sequence after the final calls alone (state that no accessor shows, such as the copy of the will payload, cannot survive from the first call)")
 	checkFrameReflectsFinalState(p, c)
 	c.Explanation = "Each setter is a transition function and each accessor a decision function over the receiver's fields; both are evaluated on the SSA form over abstract states (all 256 values of every flag byte the setter reads, zero and all-ones backgrounds for the rest) and abstract arguments (all values of booleans and bytes, boundary values of wider integers, lengths 0/1/2 with an identity tag for strings and slices). Pairing plus frame give last-write-wins for every finite setter sequence by induction."
@@ -305,6 +308,15 @@ func checkC12(p *Prog, c *Check) {
 			touchedDone := false
 			// union of the receiver paths the setter may write, over all arguments and both backgrounds
 			written := map[string]bool{}
+			// … statically, whatever field of the receiver the setter's effect summary says it may store to (a write
+			// behind a condition on the flag byte that neither probe value takes — `(q == 1 || q == 2) && v == 0`)
+			if sum := p.allEffects().Summary(st.fn); sum != nil {
+				for _, w := range sum.Writes {
+					if (w.Target.Kind == PParam || w.Target.Kind == PParamR) && w.Target.Idx == 0 && w.Target.F > 0 {
+						written[fmt.Sprintf("P0.f%d", w.Target.F-1)] = true
+					}
+				}
+			}
 			for pattern := 0; pattern < 2; pattern++ {
 				for _, a := range dom {
 					for _, flagsAll := range []int64{0, 0xFF} {
@@ -551,6 +563,64 @@ func constantInt(cn *types.Const) (int64, bool) {
 }
 
 var _ = ssa.Value(nil)
+
+// checkMultiParamMutators (R12.7): an exported mutator with several parameters (SetCredentials(user, password)) has
+// no accessor of its own name; what it must do follows from the specification: evaluated alone, with all arguments
+// set and with each argument in turn left at its zero value, the frame the packet then encodes to carries exactly
+// what the accessors show — fields, presence flags and lengths (the per-state walk of C02 against the layout table).
+func checkMultiParamMutators(p *Prog, c *Check) {
+	c.Rule("R12.7", "every exported mutator with several parameters, evaluated alone with all arguments set and with each argument in turn zero, leaves a packet whose encoded frame agrees with its accessors by the specification's layout (presence flags follow the values they announce)")
+	n := 0
+	for _, tn := range packetTypeNames() {
+		obj := p.Pkg.Scope().Lookup(tn)
+		if obj == nil {
+			continue
+		}
+		nt := obj.Type().(*types.Named)
+		multi := map[string]bool{}
+		for _, s := range p.settersOf(nt) {
+			if !s.Signature.Variadic() && s.Signature.Params().Len() > 1 {
+				multi[s.Name()] = true
+			}
+		}
+		if len(multi) == 0 {
+			continue
+		}
+		for _, spec := range p.stateSpecs(tn) {
+			m := ""
+			for name := range multi {
+				if spec.name == "only "+name || strings.HasPrefix(spec.name, "only "+name+", argument ") {
+					m = name
+				}
+			}
+			if m == "" {
+				continue
+			}
+			n++
+			cons := "(*" + tn + ")." + m + " — " + spec.name
+			st, why := p.buildStateSpec(tn, spec, nil, nil)
+			if st == nil {
+				c.Unk("R12.7", cons, "-", "cannot build the state: "+why)
+				continue
+			}
+			errs, why := p.specErrorsForState(tn, st, nil)
+			switch {
+			case why != "":
+				c.Unk("R12.7", cons, "-", why)
+			case len(errs) > 0:
+				var keys []string
+				for k := range errs {
+					keys = append(keys, k)
+				}
+				sort.Strings(keys)
+				c.Bad("R12.7", cons, "-", "after the call the frame does not agree with what the accessors show: "+errs[keys[0]])
+			default:
+				c.OK("R12.7", cons, "-", "the frame carries what the accessors show; presence flags follow the values")
+			}
+		}
+	}
+	c.Measured["multi_parameter_mutator_states"] = n
+}
 
 // checkFrameReflectsFinalState (R12.6).
 func checkFrameReflectsFinalState(p *Prog, c *Check) {
